@@ -35,7 +35,7 @@ TSys == /\ Is("Sys") /\ ~dead /\ UNCHANGED <<dead, cfg>>
                   [] E.name = "close" /\ E.a = "TMP"  -> CloseTmp(E.ret = 0, InputOk)
                   [] E.name = "renameat" /\ E.a = "TMP" /\ E.b = "TGT" -> Rename(E.ret = 0)
                   [] E.name = "unlinkat" /\ E.a = "IN"  -> UnlinkIn(E.ret = 0)
-                  [] E.name = "unlinkat" /\ E.a = "TMP" -> UnlinkTmp(E.ret = 0)
+                  [] E.name = "unlinkat" /\ E.a = "TMP" -> IF tmpOpen THEN UnlinkOpenTmp(E.ret = 0) ELSE UnlinkTmp(E.ret = 0)
                   [] OTHER -> FALSE          \* e.g. creating/writing/unlinking the target name directly
 TExit == Is("Exit") /\ ~dead /\ Exit(IF E.code = 0 THEN 0 ELSE 1) /\ UNCHANGED <<dead, cfg>>
 TKilled == Is("Killed") /\ dead' = TRUE /\ Same
